@@ -1,9 +1,202 @@
-//! C06 — not implemented yet.
-use crate::util::{Args, Out};
+//! C06 — hot-swapping an unchanged program is inaudible: run n samples, swap in a
+//! fresh compilation of the same source (the CLI's preparation path on WASM), run m
+//! more, and compare with the uninterrupted run of the same runtime.
+
+use super::progcase::{Case, feat_for, input_fn, report};
+use super::{drive, replay_one};
+use crate::gens::core::generate;
+use crate::run::{Backend, BuildError, Session};
+use crate::util::{Args, Out, Rng, bits_eq, f64s_to_json};
 use serde_json::{Value, json};
 
-pub fn meta(_args: &Args) -> Value {
-    json!({"level": "exploration", "rule": "not implemented", "floor": {"quick": 1000000, "thorough": 1000000}})
+/// `n` of the case is the tail length m; splits are derived from `input_seed`.
+fn splits(c: &Case, thorough: bool) -> Vec<(usize, usize)> {
+    // (split point, number of consecutive swaps at that point)
+    let mut r = Rng::new(c.input_seed ^ 0x5eed);
+    let mut v: Vec<(usize, usize)> = vec![];
+    let dense = if thorough { 25 } else { 9 };
+    for n in 0..dense {
+        v.push((n, 1));
+    }
+    for _ in 0..(if thorough { 6 } else { 3 }) {
+        v.push((r.below(200), 1 + r.below(4)));
+    }
+    if let Some(s) = c.split {
+        v = vec![(s.0, s.1)];
+    }
+    v
 }
-pub fn run(_args: &Args, _out: &mut Out) {}
-pub fn replay(_args: &Args, _out: &mut Out, _case: &Value) {}
+
+pub struct Checked {
+    pub violations: Vec<(String, String)>,
+    pub swaps: u64,
+    pub samples_compared: u64,
+    pub ran: bool,
+    pub stateful_cells: usize,
+    pub failing_split: Option<(usize, usize)>,
+}
+
+fn run_uninterrupted(b: Backend, c: &Case, total: usize) -> Result<Vec<f64>, String> {
+    let inp = input_fn(c.input_seed, true);
+    let mut s = Session::build(b, &c.src, false, None).map_err(|e| e.short())?;
+    let ich = s.io.input as usize;
+    let mut out = vec![];
+    let mut inbuf = vec![0.0; ich];
+    for t in 0..total {
+        for (k, v) in inbuf.iter_mut().enumerate() {
+            *v = inp(t, k);
+        }
+        out.extend(s.step(&inbuf).map_err(|p| format!("panic {} @ {}", p.msg, p.loc))?.out);
+    }
+    Ok(out)
+}
+
+pub fn check(c: &Case, thorough: bool) -> Checked {
+    let mut res = Checked { violations: vec![], swaps: 0, samples_compared: 0, ran: false, stateful_cells: 0, failing_split: None };
+    let m = c.n;
+    let sp = splits(c, thorough);
+    let max_n = sp.iter().map(|s| s.0).max().unwrap_or(0);
+    let inp = input_fn(c.input_seed, true);
+    for b in [Backend::Vm, Backend::Wasm] {
+        let Ok(base) = run_uninterrupted(b, c, max_n + m) else { continue };
+        for (n, k) in &sp {
+            let mut s = match Session::build(b, &c.src, false, None) {
+                Ok(s) => s,
+                Err(_) => break,
+            };
+            let ich = s.io.input as usize;
+            let och = s.io.output as usize;
+            if let Some(sk) = &s.skeleton {
+                res.stateful_cells = res.stateful_cells.max(sk.total_size() as usize);
+            }
+            let mut inbuf = vec![0.0; ich];
+            let mut got = vec![];
+            let mut failed = false;
+            for t in 0..(n + m) {
+                if t == *n {
+                    for j in 0..*k {
+                        match s.hot_swap(&c.src) {
+                            Ok(true) => res.swaps += 1,
+                            Ok(false) => {
+                                res.violations.push((format!("try-hot-swap-refused/{}", b.name()), format!("split {n}, swap {j}")));
+                                failed = true;
+                            }
+                            Err(BuildError::Panicked(ph, p)) => {
+                                res.violations.push((format!("{}/{ph}/{}", p.sig(), b.name()), format!("split {n}, swap {j}: {} @ {}", p.msg, p.loc)));
+                                failed = true;
+                            }
+                            Err(e) => {
+                                res.violations.push((format!("swap-preparation-failed/{}", b.name()), format!("split {n}: {}", e.short())));
+                                failed = true;
+                            }
+                        }
+                        if failed {
+                            break;
+                        }
+                    }
+                    if failed {
+                        break;
+                    }
+                }
+                for (kk, v) in inbuf.iter_mut().enumerate() {
+                    *v = inp(t, kk);
+                }
+                match s.step(&inbuf) {
+                    Ok(st) => got.extend(st.out),
+                    Err(p) => {
+                        res.violations.push((format!("{}/dsp-after-swap/{}", p.sig(), b.name()), format!("split {n}: sample {t}: {} @ {}", p.msg, p.loc)));
+                        failed = true;
+                        break;
+                    }
+                }
+            }
+            if failed {
+                res.failing_split = Some((*n, *k));
+                break;
+            }
+            res.ran = true;
+            let want = &base[..(n + m) * och];
+            res.samples_compared += got.len() as u64;
+            if let Some(i) = (0..want.len().min(got.len())).find(|&i| !bits_eq(want[i], got[i])) {
+                let ch = och.max(1);
+                let lo = i.saturating_sub(2 * ch);
+                let when = if i / ch < *n { "before the swap (harness nondeterminism?)" } else { "after the swap" };
+                res.violations.push((
+                    format!("output-differs-from-uninterrupted-run/{}", b.name()),
+                    format!(
+                        "split n={n} swaps={k}: sample {} channel {} ({when}): swapped = {:?} uninterrupted = {:?}; window swapped {} uninterrupted {}",
+                        i / ch, i % ch, got[i], want[i], f64s_to_json(&got[lo..=i]), f64s_to_json(&want[lo..=i])
+                    ),
+                ));
+                res.failing_split = Some((*n, *k));
+                break;
+            }
+        }
+    }
+    res.violations.dedup_by(|a, b| a.0 == b.0);
+    res
+}
+
+fn exec_with(args: &Args) -> impl Fn(&Case, usize, &mut Out) -> bool + '_ {
+    move |c, idx, out| {
+        let th = args.thorough();
+        let r = check(c, th);
+        out.count("swaps_performed", r.swaps);
+        out.count("samples_compared", r.samples_compared);
+        for f in c.prog.iter().flat_map(|p| p.features.iter()) {
+            out.count(&format!("feature:{f}"), 1);
+        }
+        // minimisation keeps the failing split fixed
+        let found = r.violations.clone();
+        let mut c2 = c.clone();
+        if c2.split.is_none() {
+            c2.split = r.failing_split;
+        }
+        report(out, idx, &c2, &found, &|t| check(t, th).violations);
+        r.ran && r.stateful_cells > 0
+    }
+}
+
+pub fn gen_case(args: &Args, rng: &mut Rng) -> Case {
+    let mut feat = feat_for(args, rng);
+    // signal state lives in self/mem/delay reachable from dsp; globals are constant after main
+    feat.escaping_closures = false;
+    feat.avoid.push("samplerate-in-global-init".into());
+    let prog = generate(rng, feat);
+    let src = prog.print();
+    Case {
+        src,
+        n: *rng.pick(&[8usize, 16, 40]),
+        input_seed: rng.next(),
+        finite_inputs: true,
+        prog: Some(prog),
+        expect: None,
+        scheduler: false,
+        path: None,
+        origin: None,
+        split: None,
+    }
+}
+
+pub fn meta(args: &Args) -> Value {
+    json!({
+        "level": "exploration",
+        "rule": "generated programs whose signal state lives in self/mem/delay cells (no escaping closures; globals constant after main; `now` used). For each program and each runtime: one uninterrupted run, then for every split point n in 0..8 (0..24 thorough) and a few random n < 200 a fresh session runs n samples, hot-swaps 1-4 times to a fresh compilation of the same source (VM: ProgramPayload::VmProgram; WASM: mimium-cli's prewarm + patch-plan preparation, ProgramPayload::WasmModule) and runs m more samples; all n+m samples must equal the uninterrupted run bitwise. Non-trivial = swaps happened and the dsp layout has at least one state word; distinct = hash of program + parameters.",
+        "assumptions": ["dsp inputs are a deterministic function of the sample index", "the CLI's swap preparation is reached through the cfg-guarded verif_prepare_wasm_swap"],
+        "floor": {"quick": 20, "thorough": 800},
+        "case_timeout_s": 60,
+        "hang_is_violation": false,
+        "budget": args.cases(120, 4000),
+    })
+}
+
+pub fn run(args: &Args, out: &mut Out) {
+    let total = args.cases(120, 4000);
+    let exec = exec_with(args);
+    drive(args, out, total, |_idx, rng| Some(gen_case(args, rng)), exec);
+}
+
+pub fn replay(args: &Args, out: &mut Out, case: &Value) {
+    let exec = exec_with(args);
+    replay_one::<Case>(out, case, exec);
+}
